@@ -180,6 +180,7 @@ def specCheck (line : String) : String :=
       | none => "fail bad-request"
       | some t =>
         if t.n > 8 then "skip" else   -- exact vectors have 2^n entries
+        if t.n ≤ 3 && stateOfSlow t != stateOf t then "fail spec-stateOf-inconsistent" else
         match stateOf t with
         | none => "skip"   -- rows do not describe a stabilizer state (non-commuting / dependent)
         | some ψ =>
